@@ -197,6 +197,29 @@ CHECKS = {
          'limit), not proved; bignum work growing with the magnitude of an integer argument (FACT, POWER, 10**digits, PV) is '
          'exercised with magnitudes <= 1e5; ply error recovery on a SyntaxError raised by a host callback is not modelled.',
     technique='Coq proof (potential function certified by vm_compute on the generated LR tables, strong induction on fuel) + ast translator for the wrapper + sweep'),
+ 'C02': dict(
+    text='Coq theorems over a session model with explicit lexer objects, parameterised by facts generated from the source '
+         '(private lexer clone per evaluation, release_tracebacks() in the finally clause, self.debug only prints, no module-level '
+         'state): for every history of registrations and evaluations on a parser each evaluation returns what a fresh parser with the '
+         'same bindings returns; nothing is retained over any history of any length (linear growth without the release: refuted). '
+         'Tied to the code by random histories (valid, failing, callback-raising; debug on/off) vs fresh parsers and vs the '
+         'interpreter model, deep equality of host lists around every built-in and operator, live traceback/frame counts.',
+    design='7/C02',
+    note='partial: non-mutation of host-supplied lists and retention in the Python object graph cannot be exhibited by a model with '
+         'immutable values - they are decided by the oracle (deep equality, gc object counts), the theorem covers the '
+         'history-independence and the release logic; NOW/TODAY/RAND/RANDBETWEEN excluded.',
+    technique='Coq proof (invariant over lexer-object store, induction over histories) + ast translator for the state facts + history correspondence'),
+ 'C03': dict(
+    text='Coq theorems over the session model: with a private lexer object per evaluation (generated fact), evaluations nested to '
+         'depth 2 at ANY fetch positions, on the same or another parser, and two threads under ANY schedule of single fetches, each '
+         'read exactly the tokens of their own text and leave older lexer objects untouched; with the global lexer object both are '
+         'refuted by computation. Tied to the code by all outer shapes x hook kinds x inner formulas x {other, same parser} x depth '
+         '1-2 vs solo outcomes, registration invisibility, and threaded runs with a 1 us switch interval.',
+    design='7/C03',
+    note='partial: the model interleaves whole token fetches; the real scheduler switches at bytecode boundaries inside ply and the '
+         'built-ins - that granularity is only exercised (threaded runs), not modelled; per-instance state is established by the '
+         'generated facts (ast), not by a proof about the Python object graph.',
+    technique='Coq proof (footprint invariant over a lexer-object store, induction over schedules; refutation by vm_compute) + ast translator + nested/threaded runs'),
 }
 PENDING = {}
 def main():
